@@ -28,7 +28,7 @@ REQUIRED = ['kfold_partition', 'schedule_out_of_fold', 'coef_convex', 'coef_nan_
 RULE = ('SuperLearner: cells loss {L2, nloglik} x discrete {no, yes} x 1..5 candidates, two fold counts from 2..10 per '
         'cell, n random in 10..200 (n not divisible by folds in most cases), synthetic memorising spies and spies '
         'wrapping real learners (EmpiricalMeanSL, GLMSL, StepwiseSL, sklearn); plus rejected (folds > n, folds < 2), '
-        'all-zero outcome, refit and shared-candidate streams (two SuperLearner objects built from the same candidate '
+        'PyGAM-style candidates for nloglik (1-D predict_proba, predict = labels); all-zero outcome, refit and shared-candidate streams (two SuperLearner objects built from the same candidate '
         'objects); 40% of the synthetic candidates are warm-start learners (a fit continues from what the object has '
         'already seen, like sklearn warm_start=True); every SuperLearner case is repeated with X / y (fit and predict) as lists '
         'and as pandas objects with default, shifted and permuted integer labels (int and float outcome dtype) and '
@@ -118,7 +118,7 @@ class Cand(BaseEstimator):
             v = np.clip(v, 0.0, 1.0)
         if LOGGING[0]:
             LOG.append({'ev': 'pred', 'cand': self.cand, 'uid': self.uid_, 'ids': ids, 'train': list(self.train_),
-                        'values': [float(x) for x in v]})
+                        'values': [float(x) for x in v], 'how': how})
         return v
 
     def predict(self, X):
@@ -129,6 +129,29 @@ class CandProba(Cand):
     def predict_proba(self, X):
         v = self._values(X, 'proba')
         return np.column_stack([1 - v, v])
+
+
+class CandGam(Cand):
+    """PyGAM-style classifier (the documented fallback of SuperLearner._predict_): predict_proba returns a 1-D
+    vector of probabilities, predict returns class labels"""
+
+    def predict_proba(self, X):
+        return self._values(X, 'proba')
+
+    def predict(self, X):
+        lab = (self._values(X, 'labels') > 0.5).astype(float)
+        if LOGGING[0]:
+            LOG[-1]['values'] = [float(x) for x in lab]
+        return lab
+
+
+def proba_of(est, X, loss):
+    """the candidate's prediction as SuperLearner documents it: probabilities (2-D or 1-D predict_proba) for the
+    log-likelihood loss when the candidate offers them, predict otherwise"""
+    if loss == 'nloglik' and hasattr(est, 'predict_proba'):
+        v = np.asarray(est.predict_proba(X))
+        return v[:, 1] if v.ndim == 2 else v
+    return est.predict(X)
 
 
 # --------------------------------------------------------------------------------------------- SuperLearner
@@ -152,7 +175,7 @@ def make_cands(case):
     binary = case['loss'] == 'nloglik'
     out = []
     for c, spec in enumerate(case['cands']):
-        cls = CandProba if spec.get('proba') else Cand
+        cls = CandGam if (spec.get('gam') and binary) else (CandProba if spec.get('proba') else Cand)
         inner = None
         if spec.get('inner'):
             import statsmodels.api as sm
@@ -220,6 +243,19 @@ def contain(X, y, Xq, how, seed):
     raise KeyError(how)
 
 
+def collapse(log):
+    """SuperLearner asks a 1-D predict_proba candidate twice in a row for the same rows (`[:, 1]` raises IndexError,
+    then the documented fallback): an immediately repeated identical request is one prediction"""
+    out = []
+    for e in log:
+        if out and e['ev'] == 'pred' and out[-1]['ev'] == 'pred' and \
+                all(out[-1].get(k_) == e.get(k_) for k_ in ('cand', 'uid', 'ids', 'how')):
+            out[-1] = dict(e)
+            continue
+        out.append(dict(e))
+    return out
+
+
 def run_sl(case, container='ndarray'):
     """fit + predict on the implementation -> dict of observables"""
     from zepid.superlearner import SuperLearner
@@ -234,17 +270,17 @@ def run_sl(case, container='ndarray'):
                               loss_function=case['loss'], discrete=case['discrete'])
             Xc, yc, Xqc = contain(X, y, np.vstack([Xnew, X[:5]]), container, case['data_seed'])
             sl.fit(Xc, yc)
-            out['fit_log'] = [dict(e) for e in LOG]
+            out['fit_log'] = collapse(LOG)
             out['coefs'] = [float(c) for c in sl.coefficients]
             out['perf_coefs'] = [float(c) for c in sl.est_performance['coefs']]
             out['cv_error'] = [float(c) for c in sl.est_performance['cv_error']]
             del LOG[:]
             out['pred'] = [float(v) for v in sl.predict(Xqc)]
-            out['pred_log'] = [dict(e) for e in LOG]
+            out['pred_log'] = collapse(LOG)
             out['sl'] = sl
         except Exception as e:
             out['err'] = '%s: %s' % (type(e).__name__, str(e)[:100])
-            out.setdefault('fit_log', [dict(e) for e in LOG])
+            out.setdefault('fit_log', collapse(LOG))
     return out, X, y, np.vstack([Xnew, X[:5]])
 
 
@@ -257,6 +293,12 @@ def d_superlearner(chk, case, out, X, y, Xq):
     leak = [(e['cand'], e['uid']) for e in preds if e['uid'] is None or set(e['ids']) & set(e['train'])]
     chk.d(not leak, 'every cross-validated prediction comes from a clone that never saw the row',
           dict(ctx, offending=leak[:5]))
+    if case['loss'] == 'nloglik':
+        has_proba = [bool(spec.get('proba') or spec.get('gam')) for spec in case['cands']]
+        wrong_how = [(e['cand'], e['how']) for e in preds + out.get('pred_log', [])
+                     if has_proba[e['cand']] and e.get('how') != 'proba']
+        chk.d(not wrong_how, 'log-likelihood loss: a candidate offering predict_proba (2-D or 1-D) is scored and '
+              'combined on its probabilities, not on its class labels', dict(ctx, offending=wrong_how[:5]))
     for c in range(m):
         got = sorted(i for e in preds if e['cand'] == c for i in e['ids'])
         chk.d(got == list(range(n)), 'each row is held out (predicted out-of-fold) exactly once per candidate',
@@ -353,14 +395,10 @@ def k_superlearner(chk, drv, case, out, X, y, Xq):
                 tr = [i for i in range(n) if i not in set(test)]
                 for c in range(m):
                     est = clone(cands[c]).fit(X[tr], y[tr])
-                    if case['loss'] == 'nloglik' and hasattr(est, 'predict_proba'):
-                        cv[test, c] = est.predict_proba(X[test])[:, 1]
-                    else:
-                        cv[test, c] = est.predict(X[test])
+                    cv[test, c] = proba_of(est, X[test], case['loss'])
             raw, _ = nnls(cv, y)
             full = [clone(cands[c]).fit(X, y) for c in range(m)]
-            Pq = np.column_stack([(f.predict_proba(Xq)[:, 1] if case['loss'] == 'nloglik' and
-                                   hasattr(f, 'predict_proba') else f.predict(Xq)) for f in full])
+            Pq = np.column_stack([proba_of(f, Xq, case['loss']) for f in full])
     finally:
         LOGGING[0] = True
     chk.h_checked += 1
@@ -545,7 +583,7 @@ def make_sl_case(rng, loss, discrete, m, k, real=False, n=None):
             cands.append({'inner': str(rng.choice(['mean', 'glm', 'step', 'sk'])), 'proba': bool(rng.uniform() < 0.5)})
         else:
             cands.append({'flavor': int(rng.integers(0, 5)), 'proba': bool(loss == 'nloglik' and rng.uniform() < 0.6),
-                          'warm': bool(rng.uniform() < 0.4)})
+                          'warm': bool(rng.uniform() < 0.4), 'gam': bool(loss == 'nloglik' and rng.uniform() < 0.25)})
     return {'kind': 'sl', 'loss': loss, 'discrete': bool(discrete), 'k': int(k), 'n': n,
             'n_new': int(rng.integers(3, 12)), 'cands': cands, 'data_seed': int(rng.integers(0, 2 ** 31))}
 
@@ -572,6 +610,8 @@ def sw_data(case):
             break
     beta = r.normal(size=q) * (r.uniform(size=q) < 0.6)
     lin = 0.2 + X @ beta * 0.5
+    if case.get('rare'):          # rare outcome / low counts with one real predictor
+        lin = -2.2 + 1.6 * X[:, 0]
     if case['family'] == 'gaussian':
         y = np.round(lin + r.normal(size=n), 3)
     elif case['family'] == 'binomial':
@@ -710,8 +750,7 @@ def check_stepwise(chk, drv, case):
         chk.discard('reference GLM of the starting model not at a genuine optimum (separation / non-convergence)')
     elif not close(a0, r0, rtol=1e-9):
         chk.k(False, 'starting model: logged AIC = reference AIC (well-conditioned reference)',
-              {'case': case, 'logged': a0, 'ref': r0})
-        return
+              {'case': case, 'logged': a0, 'ref': r0})      # gate D below still judges the result
     # ---- K: the model, driven by the logged AIC table, reproduces visited sequence and selected columns
     if drv is not None:
         tab = ';'.join('%s:%s' % (enc_cols(c), 'nan' if (math.isnan(a) or a == math.inf) else fx(a)) for c, a in log)
@@ -740,14 +779,22 @@ def check_stepwise(chk, drv, case):
         return r if ok_ else None
 
     tol = 1e-9 * max(1.0, abs(a0))
-    got = aic_of(out['cols'])
-    if got is None:
+    # the AIC of a model is its AIC under the REQUESTED family: the returned and the starting model are judged by a
+    # trustworthy reference fit of that family when there is one (the logged value otherwise)
+    rret, okret = (r0, ok0) if list(out['cols']) == start else ref_aic(case, y, Xu, out['cols'])
+    chk.h_checked += 1
+    if not okret:
         chk.discard('reference GLM of the returned model not at a genuine optimum')
+        got = table.get(tuple(out['cols']))
     else:
-        chk.d(close(got, out['aic'], rtol=1e-9), 'model_optim is the GLM on cols_optim',
+        got = rret
+    if got is not None:
+        chk.d(close(got, out['aic'], rtol=1e-9), 'model_optim is the GLM (requested family) on cols_optim',
               {'case': case, 'cols': out['cols'], 'expected': got, 'impl': out['aic']})
-    chk.d(out['aic'] <= a0 + tol, 'returned AIC is not worse than the starting AIC',
-          {'case': case, 'start': a0, 'returned': out['aic'], 'cols': out['cols']})
+    ret = got if got is not None else out['aic']
+    start_aic = r0 if ok0 else a0
+    chk.d(ret <= start_aic + tol, 'returned AIC is not worse than the starting AIC',
+          {'case': case, 'start': start_aic, 'returned': ret, 'cols': out['cols']})
     if case['dir'] == 'backward':
         alts = [[c for c in out['cols'] if c != d_] for d_ in out['cols']]
     else:
@@ -757,8 +804,8 @@ def check_stepwise(chk, drv, case):
         if a is None:
             chk.discard('reference GLM of an admissible step not at a genuine optimum')
             continue
-        chk.d(not (a < out['aic'] - tol), 'no admissible single step from the returned model lowers AIC',
-              {'case': case, 'cols': out['cols'], 'alt': alt, 'alt_aic': a, 'returned': out['aic']})
+        chk.d(not (a < ret - tol), 'no admissible single step from the returned model lowers AIC',
+              {'case': case, 'cols': out['cols'], 'alt': alt, 'alt_aic': a, 'returned': ret})
 
 
 def check_estimators(chk, case):
@@ -878,6 +925,12 @@ def _run(chk, drv, rng, tier, check_sl_, check_stepwise_, check_refit_):
                     for q in (1, 2, 3, 4):
                         nan_rate = 25 if (q + order + rep) % 3 == 0 else 0
                         check_stepwise_(make_sw_case(rng, d, fam, order, q, nan_rate))
+                # rare binary outcome / low counts with a real predictor (both directions, non-Gaussian families)
+                if fam != 'gaussian':
+                    c = make_sw_case(rng, d, fam, int(rng.integers(0, 2)), int(rng.integers(1, 4)), 0)
+                    c['rare'] = True
+                    c['n'] = int(rng.integers(80, 160))
+                    check_stepwise_(c)
         # NaN AIC of the starting model (backward: documented ValueError; forward: search cannot start)
         for d in ('backward', 'forward'):
             c = make_sw_case(rng, d, 'gaussian', 0, 2, 100)
